@@ -54,6 +54,9 @@ pub(crate) struct FilesEntryIterator {
 
     /// Options to configure behavior when reading from table files.
     read_options: ReadOptions,
+
+    /// The error that ended the last `next` or `prev` call, if any. See [`RainDbIterator::status`].
+    maybe_error: Option<RainDBError>,
 }
 
 /// Crate-only methods
@@ -70,6 +73,7 @@ impl FilesEntryIterator {
             current_table_iter: None,
             table_cache,
             read_options,
+            maybe_error: None,
         }
     }
 }
@@ -154,6 +158,7 @@ impl RainDbIterator for FilesEntryIterator {
     }
 
     fn seek(&mut self, target: &Self::Key) -> Result<(), Self::Error> {
+        self.maybe_error = None;
         let maybe_new_index =
             super::utils::find_file_with_upper_bound_range(&self.file_list, target);
         self.set_table_iter(maybe_new_index)?;
@@ -168,6 +173,7 @@ impl RainDbIterator for FilesEntryIterator {
     }
 
     fn seek_to_first(&mut self) -> Result<(), Self::Error> {
+        self.maybe_error = None;
         let new_file_index = 0;
         self.set_table_iter(Some(new_file_index))?;
 
@@ -181,6 +187,7 @@ impl RainDbIterator for FilesEntryIterator {
     }
 
     fn seek_to_last(&mut self) -> Result<(), Self::Error> {
+        self.maybe_error = None;
         let new_file_index = if self.file_list.is_empty() {
             0
         } else {
@@ -203,11 +210,20 @@ impl RainDbIterator for FilesEntryIterator {
         }
 
         if self.current_table_iter.as_mut().unwrap().next().is_none() {
+            if let Some(error) = self.current_table_iter.as_ref().unwrap().status() {
+                // The table iterator did not run out of entries, it failed. Do not continue with
+                // the next file as if the rest of this one did not exist.
+                self.maybe_error = Some(error);
+                self.current_table_iter = None;
+                return None;
+            }
+
             if let Err(error) = self.skip_empty_table_files_forward() {
                 log::error!(
                     "There was an error skipping forward. Original error: {}",
                     error
                 );
+                self.maybe_error = Some(error);
                 return None;
             }
         }
@@ -225,11 +241,18 @@ impl RainDbIterator for FilesEntryIterator {
         }
 
         if self.current_table_iter.as_mut().unwrap().prev().is_none() {
+            if let Some(error) = self.current_table_iter.as_ref().unwrap().status() {
+                self.maybe_error = Some(error);
+                self.current_table_iter = None;
+                return None;
+            }
+
             if let Err(error) = self.skip_empty_table_files_backward() {
                 log::error!(
                     "There was an error skipping backward. Original error: {}",
                     error
                 );
+                self.maybe_error = Some(error);
                 return None;
             }
         }
@@ -247,6 +270,10 @@ impl RainDbIterator for FilesEntryIterator {
         }
 
         self.current_table_iter.as_ref().unwrap().current()
+    }
+
+    fn status(&self) -> Option<Self::Error> {
+        self.maybe_error.clone()
     }
 }
 
@@ -324,7 +351,8 @@ impl MergingIterator {
             }
         }
 
-        None
+        // Errors that ended a `next` or `prev` call of a child iterator
+        self.iterators.iter().find_map(|iter| iter.status())
     }
 
     /// Register a closure that is called when the iterator is dropped.
@@ -575,6 +603,13 @@ impl RainDbIterator for MergingIterator {
         }
 
         None
+    }
+
+    fn status(&self) -> Option<Self::Error> {
+        self.errors
+            .iter()
+            .find_map(|maybe_error| maybe_error.clone())
+            .or_else(|| self.iterators.iter().find_map(|iter| iter.status()))
     }
 }
 
